@@ -62,16 +62,20 @@ def applyOne (ms : List CMode) (m : CMode) : List CMode :=
     see `modesNodup`.) -/
 def CModes.apply (c : CModes) (changes : List CMode) : CModes := { c with modes := changes.foldl applyOne c.modes }
 
-/-- `String()`. -/
+/-- `String()`: "+", then `string(name)` of every stored mode (`name` is a `byte`, so Go's integer→string conversion
+    `Go.strOfByte` gives the UTF-8 encoding of the code point: one byte below 0x80, two bytes `0xC2/0xC3 ‥` from 0x80 on),
+    then " " ++ args of every stored mode that has an argument. -/
 def CModes.toBytes (c : CModes) : Bytes :=
-  (if c.modes.length > 0 then [0x2B] else []) ++ c.modes.map (·.name) ++
+  (if c.modes.length > 0 then [0x2B] else []) ++ c.modes.flatMap (fun m => Go.strOfByte m.name) ++
     c.modes.flatMap (fun m => if m.args.length > 0 then SP :: m.args else [])
 
-def CModes.hasMode (c : CModes) (mode : Bytes) : Bool := c.modes.any (fun m => [m.name] = mode)
+/-- `HasMode(mode)`: some stored mode has `string(name) == mode` (the UTF-8 encoding of the letter, see `toBytes`). -/
+def CModes.hasMode (c : CModes) (mode : Bytes) : Bool := c.modes.any (fun m => Go.strOfByte m.name == mode)
 
-/-- `Get`: (args, ok). -/
+/-- `Get(mode)`: (args, ok) as an option — the arguments of the first stored mode with `string(name) == mode`, `none`
+    when there is no such mode or its argument is empty. -/
 def CModes.get (c : CModes) (mode : Bytes) : Option Bytes :=
-  match c.modes.find? (fun m => [m.name] = mode) with
+  match c.modes.find? (fun m => Go.strOfByte m.name == mode) with
   | some m => if m.args.isEmpty then none else some m.args
   | none => none
 
